@@ -17,7 +17,7 @@ Run(cs, kk, ss, n) ==
          IN << r >> \o Run(cs, kk + 1, [H |-> r.H, YD |-> r.YD, B |-> r.B], n)
 
 SeriesAgree(cs, obs) ==
-    LET h == Run(cs, 1, [H |-> cs.H0, YD |-> cs.YD0, B |-> cs.B0], Len(obs))
+    LET h == Run(cs, 1, Start(cs), Len(obs))
     IN \A i \in 1..Len(obs) :
          /\ RNorm(obs[i].Y) = h[i].Y /\ RNorm(obs[i].T) = h[i].T /\ RNorm(obs[i].YD) = h[i].YD
          /\ RNorm(obs[i].C) = h[i].C /\ RNorm(obs[i].H) = h[i].H
